@@ -1,5 +1,5 @@
 """C09 — program-level three-way comparison (Go interpreter, Lean model evaluator, Lean spec semantics)."""
-from props import progs
+from props import progs, sites
 from props.progs import replay  # noqa
 
 GEN = 'exc'
@@ -15,6 +15,7 @@ PARTIAL = "reading 其内容 of a runtime fault is 'unspecified' in the spec sem
 
 
 def run(ctx):
+    sites.report(ctx)   # regenerated site inventory vs the modelled sites (diagnosis of a broken obligation; DESIGN §12)
     g = progs.G(ctx.rng)
     n = ctx.n(2000, 50000)
     ps = progs.hand_exc() + [g.exc_program() for _ in range(n)]
